@@ -183,7 +183,7 @@ Context {V : Type} (o : ops V) (L : laws o) (SC : sum_closed o).
 
 Lemma nansum_as_merge a b c : is_null o a = false -> is_null o b = false ->
   fst (r_nansum o a b c) = fst (r_sum o a b c).
-Proof. unfold r_nansum, r_sum. intros Ha Hb. rewrite Ha, Hb. destruct (truthy c); reflexivity. Qed.
+Proof. unfold r_nansum, r_sum. intros Ha Hb. rewrite Hb. destruct (truthy c); reflexivity. Qed.
 
 Lemma series_nansum_nonnull l : is_null o (fst (series (r_nansum o) l (zero o, 0))) = false.
 Proof.
